@@ -206,6 +206,11 @@ fn thread_race_no_holder(rep: &mut Rep, rng: &mut Rng, cfg: &Cfg, dir: &Path, fr
                 b.wait();
                 let r = guard(|| Db::<K>::open(c.options(&d)));
                 let ok = matches!(r, Ok(Ok(_)));
+                let err = match &r {
+                    Ok(Ok(_)) => String::new(),
+                    Ok(Err(e)) => format!("{e:#}"),
+                    Err(p) => format!("PANIC {p}"),
+                };
                 // winners keep their handle until every attempt has finished
                 dn.wait();
                 let mut works = true;
@@ -214,7 +219,7 @@ fn thread_race_no_holder(rep: &mut Rep, rng: &mut Rng, cfg: &Cfg, dir: &Path, fr
                     works = commit_some(db, &mut rng, 5);
                 }
                 drop(r);
-                (ok, works)
+                (ok, works, err)
             })
         })
         .collect();
@@ -229,8 +234,15 @@ fn thread_race_no_holder(rep: &mut Rep, rng: &mut Rng, cfg: &Cfg, dir: &Path, fr
             format!("{what}: {winners} of {n} racing threads hold a handle at the same time"),
         );
     }
+    if winners == 0 && fresh {
+        // Not a C20 matter: no handle was ever alive. (Store creation has an acknowledged
+        // check-then-create window: an opener that finds the half-created directory can take the
+        // lock first, fail on the missing manifest and make the creator fail on the lock.)
+        rep.feat("creation_race_without_winner", 1);
+        return;
+    }
     if winners == 0 {
-        rep.fail("C20", "no-winner", format!("{what}: none of {n} openers succeeded although no handle was alive"));
+        rep.fail("C20", "no-winner", format!("{what}: none of {n} openers succeeded although no handle was alive; errors: {:?}; dir now: {:?}", res.iter().map(|r| r.2.clone()).collect::<Vec<_>>(), std::fs::read_dir(dir).map(|rd| rd.flatten().map(|e| e.file_name().to_string_lossy().to_string()).collect::<Vec<_>>())));
     }
     if res.iter().any(|r| r.0 && !r.1) {
         rep.fail("C20", "winner-broken-by-losers", format!("{what}: the winner could not commit afterwards"));
@@ -488,7 +500,8 @@ fn reopen_after_failure(rep: &mut Rep, rng: &mut Rng, cfg: &Cfg, dir: &Path) {
         };
         commit_some(&db, rng, 20);
         // fail some mutating event of the next commit
-        let at = rng.below(14);
+        let wide = rng.bool();
+        let at = rng.below(if wide { 70 } else { 14 });
         rec.start(dir, Mode::Inject { at, errno: libc::EIO, persistent: rng.bool() });
         let ok = commit_some(&db, rng, 20);
         let injected = rec.st.lock().injected;
@@ -500,6 +513,25 @@ fn reopen_after_failure(rep: &mut Rep, rng: &mut Rng, cfg: &Cfg, dir: &Path) {
             let _ = commit_some(&db, rng, 2);
         }
         drop(db);
+        if injected > 0 && !ok {
+            // no background writer of the failed handle may outlive the drop
+            rec.start(dir, Mode::Record);
+            std::thread::sleep(Duration::from_millis(if round % 2 == 0 { 5 } else { 40 }));
+            let ev = rec.stop();
+            rep.eval("C20", true);
+            if !ev.is_empty() {
+                rep.fail(
+                    "C20",
+                    &format!("io-after-drop-of-failed-handle:{}", ev[0].site),
+                    format!(
+                        "round {round}: commit failed by EIO at mutating event {at}; after drop(nomt) returned {} more I/O events hit the directory, first: {}",
+                        ev.len(),
+                        crate::io_rec::describe(&ev[0])
+                    ),
+                );
+                return;
+            }
+        }
     }
     rep.eval("C20", true);
     match guard(|| Db::<K>::open(cfg.options(dir))) {
@@ -507,4 +539,73 @@ fn reopen_after_failure(rep: &mut Rep, rng: &mut Rng, cfg: &Cfg, dir: &Path) {
         Ok(Err(e)) => rep.fail("C20", "open-after-failed-commit-failed", format!("final open failed: {e:#}")),
         Err(p) => rep.fail("C20", "open-panicked", p),
     }
+}
+
+/// Debug aid (`nv lockfail`): open, commit, make the next commit / rollback fail at a random
+/// mutating event, drop the handle and open again at once; counts lock failures.
+pub fn stress_reopen_after_failure() {
+    let iters: u64 = std::env::var("ITERS").ok().and_then(|v| v.parse().ok()).unwrap_or(2000);
+    let seed: u64 = std::env::var("SEED").ok().and_then(|v| v.parse().ok()).unwrap_or(1);
+    let mut rng = Rng::new(seed);
+    let dir = PathBuf::from(format!("/dev/shm/nv-lockfail.{}", std::process::id()));
+    let _ = std::fs::remove_dir_all(&dir);
+    let mut c = Cfg::default_small();
+    c.rollback = true;
+    c.commit_concurrency = std::env::var("CC").ok().and_then(|v| v.parse().ok()).unwrap_or(4);
+    c.warm_up = std::env::var("NO_WARM").is_err();
+    let rec = recorder();
+    let mut fails = 0;
+    let mut failed_commits = 0;
+    for i in 0..iters {
+        let db = match Db::<K>::open(c.options(&dir)) {
+            Ok(db) => db,
+            Err(e) => {
+                println!("iter {i}: open at loop start failed: {e:#}");
+                let _ = std::fs::remove_dir_all(&dir);
+                continue;
+            }
+        };
+        commit_some(&db, &mut rng, 30);
+        let at = rng.below(40);
+        let persistent = rng.bool();
+        rec.start(&dir, Mode::Inject { at, errno: libc::EIO, persistent });
+        let ok = if rng.below(4) == 0 { db.rollback(1).is_ok() } else { commit_some(&db, &mut rng, 30) };
+        let (injected, site) = {
+            let st = rec.st.lock();
+            (st.injected, st.injected_site.clone())
+        };
+        rec.start(&dir, Mode::Off);
+        if injected > 0 && !ok {
+            failed_commits += 1;
+        }
+        drop(db);
+        match Db::<K>::open(c.options(&dir)) {
+            Ok(db) => drop(db),
+            Err(e) => {
+                fails += 1;
+                let mut names = Vec::new();
+                for t in std::fs::read_dir("/proc/self/task").unwrap() {
+                    let t = t.unwrap();
+                    names.push(std::fs::read_to_string(t.path().join("comm")).unwrap_or_default().trim().to_string());
+                }
+                println!("iter {i}: reopen failed: {e:#}; injected={injected} ok={ok} site={site:?} at={at} persistent={persistent}; threads: {names:?}");
+                std::thread::sleep(Duration::from_millis(300));
+                match Db::<K>::open(c.options(&dir)) {
+                    Ok(db) => {
+                        println!("   retry after 300ms: ok");
+                        drop(db)
+                    }
+                    Err(e) => {
+                        println!("   retry after 300ms: still failing: {e:#}");
+                        let _ = std::fs::remove_dir_all(&dir);
+                    }
+                }
+            }
+        }
+        if i % 50 == 49 {
+            let _ = std::fs::remove_dir_all(&dir);
+        }
+    }
+    println!("lock failures: {fails}/{iters} (failed commits: {failed_commits})");
+    let _ = std::fs::remove_dir_all(&dir);
 }
